@@ -13,6 +13,7 @@ import (
 	"verif/internal/gen"
 	"verif/internal/gt"
 	"verif/internal/h"
+	"verif/internal/ops"
 	"verif/internal/ref"
 )
 
@@ -92,6 +93,56 @@ func prepare(m *ref.Node, indexed bool) (*tree.Tree, *ref.UView, error) {
 	return t, u, err
 }
 
+// prepareHist is prepare after an edit history (name-preserving operations of internal/ops): the
+// operation under test then works on a tree object that was re-rooted, rearranged, collapsed,
+// resolved, copied ... in memory, and the oracle on the model read back from that object. *m is
+// replaced by this model. A history that leaves no usable tree is dropped.
+func prepareHist(m **ref.Node, indexed bool, hist []ops.Op) (*tree.Tree, *ref.UView, error) {
+	if len(hist) > 0 {
+		t0, err := gt.FromModel(*m)
+		if err != nil {
+			return nil, nil, fmt.Errorf("parser rejects the start tree: %v", err)
+		}
+		if indexed {
+			if err := t0.ReinitIndexes(); err != nil {
+				return nil, nil, err
+			}
+		}
+		t, model, ok, err := ops.Replay(t0, hist)
+		if err != nil {
+			return nil, nil, err
+		}
+		lens := true
+		if ok {
+			model.Walk(func(x, p *ref.Node) {
+				if p != nil && x.Len == nil {
+					lens = false
+				}
+			})
+		}
+		if ok && lens {
+			*m = model
+			if indexed {
+				if err := t.ReinitIndexes(); err != nil {
+					return nil, nil, err
+				}
+			}
+			u, err := ref.Unrooted(model)
+			lastTree, lastIndexed = t, indexed
+			return t, u, err
+		}
+	}
+	return prepare(*m, indexed)
+}
+
+// drawHistory: one case in five is preceded by 1-4 edits in memory.
+func drawHistory(t *rapid.T) []ops.Op {
+	if rapid.IntRange(0, 4).Draw(t, "hashistory") != 2 {
+		return nil
+	}
+	return ops.GenHistory(t, 4)
+}
+
 // lastTree is the tree of the case being checked (cases are evaluated one at a time).
 var (
 	lastTree    *tree.Tree
@@ -144,6 +195,7 @@ func sameTree(before *ref.Node, ub *ref.UView, t *tree.Tree, supports bool) (*re
 // reroot / unroot / rotate / sort
 
 type ReCase struct {
+	History []ops.Op  `json:"history,omitempty"` // edits applied in memory before the operation (the model is read back afterwards)
 	Tree    *ref.Node `json:"tree"`
 	Indexed bool      `json:"indexed"`
 	Op      string    `json:"op"`
@@ -152,7 +204,7 @@ type ReCase struct {
 }
 
 func checkRe(c ReCase) error {
-	t, ub, err := prepare(c.Tree, c.Indexed)
+	t, ub, err := prepareHist(&c.Tree, c.Indexed, c.History)
 	if err != nil {
 		return err
 	}
@@ -234,11 +286,13 @@ func checkRe(c ReCase) error {
 func TestC05Reroot(t *testing.T) {
 	h.Run(t, h.Spec[ReCase]{
 		Property: "C05", Name: "reroot", Quick: 16000, Thorough: 800000,
-		Rule: "trees with all lengths present (3..12 tips, 5% up to 40/300; zero lengths and ties frequent; supports on unnamed inner nodes or inner names) x {Reroot(every inner node by selector), Reroot(tip) must fail, UnRoot, RotateInternalNodes(seed), SortNeighborsByTips} x indexed or not; oracle = unrooted view equality (tips, split->length, distances, supports); non-trivial = multifurcating or rooted input or zero-length branch",
+		Rule: "trees with all lengths present (3..12 tips, 5% up to 40/300; zero lengths and ties frequent; supports on unnamed inner nodes or inner names) x {Reroot(every inner node by selector), Reroot(tip) must fail, UnRoot, RotateInternalNodes(seed), SortNeighborsByTips} x indexed or not; one case in five first applies 1-4 name-preserving edits (re-root, NNI, collapse, resolve, rotate, copy ...) to the tree object in memory, the oracle then works on the model read back from it; oracle = unrooted view equality (tips, split->length, distances, supports); non-trivial = multifurcating or rooted input or zero-length branch",
 		Gen: func(t *rapid.T, thorough bool) ReCase {
-			return ReCase{Tree: gen.Tree(t, treeOpts(t, thorough)), Indexed: rapid.Bool().Draw(t, "indexed"),
+			c := ReCase{Tree: gen.Tree(t, treeOpts(t, thorough)), Indexed: rapid.Bool().Draw(t, "indexed"),
 				Op:  rapid.SampledFrom([]string{"reroot", "reroot", "reroot", "unroot", "rotate", "sort", "reroot_tip"}).Draw(t, "op"),
 				Sel: rapid.IntRange(0, 1000).Draw(t, "sel"), Seed: rapid.Int64Range(0, 1<<40).Draw(t, "seed")}
+			c.History = drawHistory(t)
+			return c
 		},
 		Check: indexesAfter(checkRe),
 		Classify: func(c ReCase) (bool, []string) {
@@ -252,6 +306,7 @@ func TestC05Reroot(t *testing.T) {
 // outgroup
 
 type OutCase struct {
+	History []ops.Op  `json:"history,omitempty"`
 	Tree    *ref.Node `json:"tree"`
 	Indexed bool      `json:"indexed"`
 	Out     []string  `json:"out"`
@@ -277,7 +332,7 @@ func checkOut(c OutCase) error {
 			}
 		}
 	}
-	t, ub, err := prepare(c.Tree, c.Indexed)
+	t, ub, err := prepareHist(&c.Tree, c.Indexed, c.History)
 	if err != nil {
 		return err
 	}
@@ -416,6 +471,7 @@ func checkOut(c OutCase) error {
 func genOut(t *rapid.T, thorough bool) OutCase {
 	m := gen.Tree(t, treeOpts(t, thorough))
 	c := OutCase{Tree: m, Indexed: rapid.Bool().Draw(t, "indexed"), Remove: rapid.Bool().Draw(t, "remove"), Strict: rapid.Bool().Draw(t, "strict")}
+	c.History = drawHistory(t)
 	tips := m.Tips()
 	c.Class = rapid.SampledFrom([]string{"clade", "complement", "tip", "random", "absent-mixed", "all-absent"}).Draw(t, "class")
 	par := m.Parents()
@@ -498,12 +554,13 @@ func TestC05Outgroup(t *testing.T) {
 // midpoint
 
 type MidCase struct {
+	History []ops.Op  `json:"history,omitempty"`
 	Tree    *ref.Node `json:"tree"`
 	Indexed bool      `json:"indexed"`
 }
 
 func checkMid(c MidCase) error {
-	t, ub, err := prepare(c.Tree, c.Indexed)
+	t, ub, err := prepareHist(&c.Tree, c.Indexed, c.History)
 	if err != nil {
 		return err
 	}
@@ -542,7 +599,7 @@ func TestC05Midpoint(t *testing.T) {
 		Property: "C05", Name: "midpoint", Quick: 8000, Thorough: 400000,
 		Rule: "same trees (all lengths present, zeros and ties frequent, all-zero included) x RerootMidPoint; oracle = unrooted view equality and 'deepest tip on both sides of the root at half the reference diameter'; non-trivial = multifurcating or rooted input or zero-length branch",
 		Gen: func(t *rapid.T, thorough bool) MidCase {
-			return MidCase{Tree: gen.Tree(t, treeOpts(t, thorough)), Indexed: rapid.Bool().Draw(t, "indexed")}
+			return MidCase{Tree: gen.Tree(t, treeOpts(t, thorough)), Indexed: rapid.Bool().Draw(t, "indexed"), History: drawHistory(t)}
 		},
 		Check: indexesAfter(checkMid),
 		Classify: func(c MidCase) (bool, []string) {
